@@ -17,6 +17,7 @@ Section WlHost.
   Variable disp : list irule.
   Hypothesis Hdisp : lookup cs CH_FROM_WL = Some disp.
   Hypothesis Hw : lookup cs CH_WL_TO_HOST = Some (wl_to_host c).
+  Hypothesis Hipvs : c_ipvs c = false.
 
   (* no tunnel / wireguard rule in front of the workload rules fires (Spec.infra_pkt says when they do) *)
   Definition front_miss (p : packet) : Prop :=
@@ -43,7 +44,7 @@ Section WlHost.
   Lemma input_to_wl_to_host : forall n p, wl_iface c (pk_in p) = true -> front_miss p ->
     G cs e (S (S n)) (filter_input c) p = goto_wrap (G cs e (S n) (wl_to_host c) p).
   Proof.
-    intros n p Hwl Hfront. unfold filter_input, G. rewrite go_app. rewrite (go_all_miss _ _ _ Hfront).
+    intros n p Hwl Hfront. unfold filter_input, input_ipvs_rules. rewrite Hipvs. cbn [opt_rules app]. unfold G. rewrite go_app. rewrite (go_all_miss _ _ _ Hfront).
     unfold input_wl_rules. unfold wl_iface in Hwl. revert Hwl. generalize (c_prefixes c). intro l.
     induction l as [|x l IH]; intro H; [discriminate|].
     cbn [existsb] in H. cbn [map app go R ir_match ir_action matches forallb match_one iface_ok].
